@@ -59,6 +59,10 @@ func c02FixedValues(cfg c02Cfg) (vs []byte, ass []uint16, holds []uint16, ids []
 	r16 := wire.AS2(cfg.ras)
 	vs = []byte{4, 0, 3, 5, 255}
 	ass = []uint16{r16, 0, r16 - 1, r16 + 1, 23456, 65535}
+	if cfg.ras > 65535 {
+		// the halves of a 4-octet remote AS are not its 2-octet representation
+		ass = append(ass, uint16(cfg.ras), uint16(cfg.ras>>16))
+	}
 	holds = []uint16{90, 0, 1, 2, 3, 4, 65535}
 	ids = []uint32{0x0a000002, 0, cfg.lid, cfg.lid - 1, cfg.lid + 1, 0xdfffffff, 0xe0000000, 0xefffffff, 0xf0000000, 0xffffffff}
 	return
@@ -275,6 +279,9 @@ func c02Bodies(cfg c02Cfg, thorough bool) [][]byte {
 	if !thorough {
 		// quick: the valid part and one deviation per field
 		singles = []c02Fixed{valid, {3, valid.as, 90, valid.id}, {4, 23456, 90, valid.id}, {4, valid.as, 0, valid.id}, {4, valid.as, 2, valid.id}, {4, valid.as, 90, 0xe0000000}}
+		if cfg.ras > 65535 {
+			singles = append(singles, c02Fixed{4, uint16(cfg.ras), 90, valid.id})
+		}
 	}
 	for _, f := range singles {
 		for _, o := range layouts {
